@@ -255,8 +255,17 @@ func (g *docGen) polyCoords() string {
 func (g *docGen) rectPolyCoords() string {
 	a, b := g.r.rangeI(-100, 100), g.r.rangeI(-80, 80)
 	w, h := g.r.rangeI(1, 50), g.r.rangeI(1, 50)
+	// sometimes with Z (and M) ordinates: a rectangle with extra ordinates must keep them under AllowRects
+	nextra := 0
+	if g.r.coin(0.3) {
+		nextra = g.r.rangeI(1, 2)
+	}
 	f := func(x, y int) string {
-		return "[" + strconv.FormatFloat(float64(x)/16, 'f', -1, 64) + "," + strconv.FormatFloat(float64(y)/16, 'f', -1, 64) + "]"
+		t := "[" + strconv.FormatFloat(float64(x)/16, 'f', -1, 64) + "," + strconv.FormatFloat(float64(y)/16, 'f', -1, 64)
+		for k := 0; k < nextra; k++ {
+			t += "," + strconv.Itoa((x*7+y*3+k)%50)
+		}
+		return t + "]"
 	}
 	c := []ipt{{a, b}, {a + w, b}, {a + w, b + h}, {a, b + h}}
 	if g.r.coin(0.4) {
@@ -560,6 +569,22 @@ func genDocs(o *out, r *rng, thorough bool, suite string) {
 			id := o.newID("H")
 			opts := randOpts(r)
 			emitParse(o, "oparse", id, opts, text)
+			o.op("ojson %s", id)
+			o.op("xroundtrip %s %s", id, opts)
+		}
+		o.op("oreset")
+		// member names written with JSON escapes are the same names (gjson unescapes keys)
+		for _, text := range []string{
+			"{\"\\u0074ype\":\"Point\",\"coordinates\":[1,2]}",
+			"{\"type\":\"Point\",\"c\\u006fordinates\":[3,4]}",
+			"{\"type\":\"Point\",\"coordinates\":[1,2],\"c\\u006fordinates\":[5,6]}",
+			"{\"type\":\"Feature\",\"ge\\u006fmetry\":{\"type\":\"Point\",\"coordinates\":[1,2]},\"pr\\u006fperties\":{\"a\":1}}",
+			"{\"type\":\"GeometryCollection\",\"geometri\\u0065s\":[{\"typ\\u0065\":\"LineString\",\"coordinates\":[[0,0],[1,1]]}]}",
+			"{\"type\":\"FeatureCollection\",\"f\\u0065atures\":[],\"\\u0062box\":[0,0,1,1]}",
+		} {
+			id := o.newID("E")
+			opts := randOptsNoRV(r)
+			emitParse(o, "oparsewf", id, opts, text)
 			o.op("ojson %s", id)
 			o.op("xroundtrip %s %s", id, opts)
 		}
